@@ -38,6 +38,7 @@ class RuleExpandRunner(PySHACLRunType):
         options: Optional[Dict[str, Any]] = None,
         **kwargs,
     ):
+        self._forget_cached_graph_contents()
         options = options or {}
         self._load_default_options(options)
         self.options = options  # type: dict
